@@ -149,10 +149,15 @@ def analyse_def(mf, lib, name):
     if fm:
         bound |= set(fm[0]) | ({fm[1]} if fm[1] else set())
     free, calls = set(), []
-    cbody = []
-    for e in body:
-        c = core(mf, e)
-        cbody.append(c)
+    cbody = [core(mf, e) for e in body]
+    # internal definitions are visible in the whole body (as in a lambda body, free_vars)
+    for c in cbody:
+        if isinstance(c, list) and len(c) > 1 and c[0] == Sym("define"):
+            tg = c[1]
+            nm = tg.name if isinstance(tg, Sym) else (tg[0].name if isinstance(tg, list) and tg else (tg.items[0].name if isinstance(tg, Dotted) else None))
+            if nm:
+                bound.add(nm)
+    for c in cbody:
         free_vars(c, bound, free, calls, set(mf.macros))
     return free, calls, cbody, bound
 
